@@ -72,6 +72,9 @@ class Ctx:
         self.nchecks = 0
         self.unknown_feas = 0
         self.sqrt_defs = {}
+        # True while engine.explore drives this context (every fork's other branch will be executed).  A facet that runs the
+        # code once on a bare context must not silently follow one branch of a symbolic condition: a fork there is Unsupported.
+        self.exploring = False
 
     # -- path management
     def reset_path(self, prefix):
@@ -109,6 +112,8 @@ class Ctx:
         else:
             ft, ff = self.feasible(b), self.feasible(z3.Not(b))
             if ft and ff:
+                if not self.exploring:
+                    raise Unsupported("branch on a symbolic condition outside a path exploration (single-path facet)")
                 self.work.append(self.taken + [False])
                 d = True
             elif ft:
@@ -132,6 +137,8 @@ class Ctx:
             if cond is not None and not self.feasible(cond):
                 d = False
             else:
+                if not self.exploring:
+                    raise Unsupported("nondeterministic choice outside a path exploration (single-path facet)")
                 self.work.append(self.taken + [False])
                 d = True
         self.taken.append(d)
